@@ -226,6 +226,11 @@ qb_log_real_va_(struct qb_log_callsite *cs, va_list ap)
 		}
 	}
 
+	if (max_line_length == 0) {
+		/* no target wants it, but old_internal_log_fn might */
+		max_line_length = QB_LOG_MAX_LEN;
+	}
+
 	if (max_line_length > QB_LOG_MAX_LEN) {
 		str = malloc(max_line_length);
 		if (!str) {
